@@ -59,7 +59,7 @@ DMAX = 2.5  # >= every network / FIN delay above
 # (request + answer) + release delivery; plus one poll period until the next grant
 CYCLE = POLL + max(HOLDS) + 4 * DMAX + 0.5
 
-DEFAULT_CFG = dict(prop='C13', faults=False, free_execs=3, random_execs=3, max_enum=90,
+DEFAULT_CFG = dict(prop='C13', faults=False, free_execs=3, random_execs=3, max_enum=70,
                    modes=('reset', 'fin'), max_clients=6, max_rounds=3, max_steps=6000, max_time=700.0,
                    stray=(1, 8), hold_io=(1, 4))
 
